@@ -756,7 +756,8 @@ def fifo1(ctx: Ctx, chk) -> None:
     ctor_chain = {init0.fq} | {c_.fq + ".__init__" for c_ in mt.repo_mro()}
     # constructor
     chk.instance(rule)
-    qs = [n for n in ctx.own_nodes(init) if isinstance(n, (ast.Assign, ast.AnnAssign)) and norm(n.targets[0] if isinstance(n, ast.Assign) else n.target) == "self._incoming_messages"]
+    qnames = ctx.eea().queue_attrs()  # the private name(s) the queue goes by (the attribute, delegating properties)
+    qs = [n for n in ctx.own_nodes(init) if isinstance(n, (ast.Assign, ast.AnnAssign)) and norm(n.targets[0] if isinstance(n, ast.Assign) else n.target) in {f"self.{q}" for q in qnames}]
     if not qs:
         # a queue object created in the class body is ONE queue shared by every transport instance
         for c_ in mt.repo_mro():
@@ -780,7 +781,9 @@ def fifo1(ctx: Ctx, chk) -> None:
         for n_ in ctx.own_nodes(g_):
             tg_ = n_.targets if isinstance(n_, ast.Assign) else [n_.target] if isinstance(n_, (ast.AnnAssign, ast.AugAssign)) else []
             for t_ in tg_:
-                if isinstance(t_, ast.Attribute) and t_.attr == "_incoming_messages":
+                if isinstance(t_, ast.Attribute) and t_.attr in qnames:
+                    if g_.is_setter() and g_.name in qnames and isinstance(n_, ast.Assign) and isinstance(n_.value, ast.Name) and n_.value.id in g_.positional_params[1:]:
+                        continue  # the setter of a delegating property: runs only where someone assigns the property (judged there)
                     chk.instance(rule)
                     chk.refute(rule, fkey(g_, n_) + "::queue-rebound", f"`{norm(n_)[:70]}` in {g_.qualname} replaces the receive queue after construction: a read() already waiting in get() keeps waiting on the old queue and is never served again (silent deafness), and messages / errors still queued there are lost", ctx.loc(g_, n_))
     # all queue operations in the package
@@ -849,7 +852,7 @@ def fifo1(ctx: Ctx, chk) -> None:
     rd = ctx.inl(rd, lambda h: h.name not in ("_receive", "_receive_error", "_parse_mqtt_to_message", "_parse_message_to_mqtt", "_connect", "_disconnect", "_subscribe", "_publish", "_handle_incoming"))
     la = ctx.I.local_assigns(rd)
     cnr = Canon(ctx.I, rd, "")
-    got_names = [k for k, v in la.items() if len(v) == 1 and isinstance(v[0], ast.Await) and isinstance(v[0].value, ast.Call) and norm(v[0].value.func).endswith("_incoming_messages.get")]
+    got_names = [k for k, v in la.items() if len(v) == 1 and isinstance(v[0], ast.Await) and isinstance(v[0].value, ast.Call) and isinstance(v[0].value.func, ast.Attribute) and v[0].value.func.attr == "get" and norm(v[0].value.func.value) in {f"self.{q}" for q in qnames}]
     ok = False
     if len(got_names) == 1:
         item = got_names[0]
